@@ -76,7 +76,9 @@ func c11Ops(in *c11Inst) []c11Op {
 		add("GetI64", func(y *RNG) string { v, f := st.GetI64(q); return fmt.Sprint(v, f) })
 	}
 	add("Stat", func(y *RNG) string { return fmt.Sprintf("%+v", *st.Stat()) })
-	add("String", func(y *RNG) string { return st.String() })
+	if in.nkeys <= 2000 { // String() of a 20k-key trie from 32 goroutines only costs time
+		add("String", func(y *RNG) string { return st.String() })
+	}
 	add("Marshal", func(y *RNG) string { b, err := st.Marshal(); return hx(b) + " " + fmt.Sprint(err) })
 	nq := len(in.queries)
 	for i := 0; i < nq; i += 2 {
@@ -435,7 +437,7 @@ func init() {
 		c.Or.Rule = "instances: generated cases (key-set kinds " + strings.Join(kindNames, "/") + " x value layouts x options x encoders; every third forced Complete so that scans/iterators run) as fresh and as loaded-from-current-bytes, plus legacy fixtures of /repo/trie/testdata loaded with encode.I32; " +
 			"a case = (instance, number of goroutines 2..32); every read op (lookups = Get+GetID+RangeGet+Search+searchID, GetI8..GetI64, ScanFrom, ScanFromTo, NewIter, three interleaved iterators, Stat, String, Marshal) is run alone first, then goroutines run random ops with random runtime.Gosched() yields and each result is compared with the solo result; " +
 			"non-trivial = the instance has at least 2 keys; distinct = distinct (instance, goroutines). The race detector runs in a separate program (oracle.race_detector)."
-		ncases := c.N(80, 1000)
+		ncases := c.N(80, 600)
 		perG := c.N(30, 60)
 		gChoices := []int{2, 3, 4, 8, 16, 32}
 		reported := map[string]bool{}
@@ -531,7 +533,7 @@ func init() {
 		c.Or.Add("concurrent-ops", totalOps)
 
 		c.Or.Extra["effect_summary"] = c11EffectSummary(c)
-		race := c11Race(c, c.N(4, 40))
+		race := c11Race(c, c.N(4, 25))
 		c.Or.Extra["race_detector"] = race
 		if av, _ := race["available"].(bool); !av {
 			c.Or.Count("race-detector:UNAVAILABLE")
